@@ -626,13 +626,32 @@ class Backend(ABC):
     def convert_condition_val(self, cond: ConditionValueExpression, state: ConversionState) -> Any:
         """Conversion of value-only conditions."""
         match cond.value:
+            case SigmaCasedString():
+                # There is no expression for a case-sensitive match without a field; emitting the
+                # case-insensitive one would silently change the meaning of the rule.
+                raise NotImplementedError(
+                    "Case-sensitive values without a field name are not supported by the backend."
+                )
             case SigmaString():
                 return self.convert_condition_val_str(cond, state)
+            case SigmaTimestampPart():
+                raise SigmaValueError(
+                    "Timestamp parts can't appear as standalone value without a field name."
+                )
             case SigmaNumber():
                 return self.convert_condition_val_num(cond, state)
             case SigmaBool():
                 raise SigmaValueError(
                     "Boolean values can't appear as standalone value without a field name."
+                )
+            case SigmaExpansion():
+                # OR-link the converted values of the expansion, as for values bound to a field
+                return self.convert_condition_or(
+                    ConditionOR(
+                        [ConditionValueExpression(value) for value in cond.value.values],
+                        cond.source,
+                    ),
+                    state,
                 )
             case SigmaRegularExpression():
                 return self.convert_condition_val_re(cond, state)
